@@ -4,6 +4,7 @@ package main
 // original streams so that those keep their random sequence.
 
 import (
+	"encoding/json"
 	"strings"
 
 	"verif/harness/h"
@@ -62,5 +63,32 @@ func c16ExtStream(op string) string {
 }
 
 func c16ReplayExt(r *h.Result, rng *h.Rng, stream string, raw []byte, ops, impl *[]string, cases *[]any) bool {
+	switch stream {
+	case "pmerge":
+		var f struct {
+			Replay struct {
+				PMerge c16PMergeCase `json:"pmerge"`
+			} `json:"replay"`
+		}
+		if json.Unmarshal(raw, &f) != nil {
+			return false
+		}
+		c16PMergeRun(r, f.Replay.PMerge, ops, impl, cases)
+		return true
+	case "pmerge-e2e":
+		var f struct {
+			Replay struct {
+				Profiles []c16Profile `json:"profiles"`
+			} `json:"replay"`
+		}
+		if json.Unmarshal(raw, &f) != nil {
+			return false
+		}
+		c16PEndToEnd(r, rng, f.Replay.Profiles)
+		return true
+	case "cap-real":
+		c16CapReal(r)
+		return true
+	}
 	return false
 }
